@@ -50,6 +50,10 @@ where
     | .nil => []
     | .cons c k r => Json.arr #[Json.str c, forestToJson k] :: go r
 
+def fdepth : Forest → Nat
+  | .nil => 0
+  | .cons _ k r => max (fdepth k + 1) (fdepth r)
+
 def hierOfJson (j : Json) : Except String (HierTab × List Ty) := do
   let mro ← listOfJson (pairOfJson strOfJson (listOfJson strOfJson)) (← j.getObjVal? "mro")
   let inst ← listOfJson (pairOfJson strOfJson strOfJson) (← j.getObjVal? "inst")
@@ -58,6 +62,24 @@ def hierOfJson (j : Json) : Except String (HierTab × List Ty) := do
     (← j.getObjVal? "auto")
   let uni ← listOfJson strOfJson (← j.getObjVal? "universe")
   return ({ mro, inst, sub, auto }, uni)
+
+/-- the hierarchy the *property* is evaluated on: the interpreter's tables, except that the rows of
+    glom's own duck types (`_AbstractIterable`: iterable but not a string; `_ObjStyleKeys`: has a
+    `__dict__` with keys) and of the auto-discovery functions of the two builtin ops (`iterate`: `iter`
+    for a type with a callable `__iter__`; `get`: `getattr`) are the harness's statement of their
+    meaning when glom's code answers differently (`ref_inst` / `ref_sub` / `ref_auto` are present
+    only then) -/
+def refHierOfJson (j : Json) (tab : HierTab) : Except String HierTab := do
+  let inst ← (match j.getObjVal? "ref_inst" with
+    | .ok x => listOfJson (pairOfJson strOfJson strOfJson) x
+    | .error _ => pure tab.inst)
+  let sub ← (match j.getObjVal? "ref_sub" with
+    | .ok x => listOfJson (pairOfJson strOfJson strOfJson) x
+    | .error _ => pure tab.sub)
+  let auto ← (match j.getObjVal? "ref_auto" with
+    | .ok x => listOfJson (pairOfJson strOfJson (listOfJson (pairOfJson strOfJson strOfJson))) x
+    | .error _ => pure tab.auto)
+  return { tab with inst, sub, auto }
 
 def kindOfStr : String → Except String RegKind
   | "module" => .ok .module
@@ -71,9 +93,12 @@ def ansOfJson (j : Json) : Except String Answer :=
   match j with
   | .str "unregistered" => .ok .unregistered
   | .str "keyError" => .ok .keyError
-  | _ => do
-    let h ← optStr (← j.getObjVal? "ret")
-    return .ret h
+  | _ =>
+    match j.getObjVal? "error" with
+    | .ok _ => .ok .keyError      -- neither a handler nor UnregisteredTarget: never an allowed answer
+    | .error _ => do
+      let h ← optStr (← j.getObjVal? "ret")
+      return .ret h
 
 def ansToJson : Answer → Json
   | .ret (some h) => Json.mkObj [("ret", Json.str h)]
@@ -122,13 +147,36 @@ def cactOfJson (j : Json) : Except String CAct := do
   | "bad_call" => return .badCall reg (← j.getObjValAs? String "what")
   | _ => throw s!"bad action {a}"
 
+/-- the memo policy of the code under test, as read from its source on this run: `false` (failed
+    lookups are not memoised) is the code the theorems are about -/
+def storeMisses : Bool := !Generated.c13MemoStoresOnlySuccess
+
+/-- the memo-hit behaviour of the code under test: `false` (a remembered `False` is reported through
+    the same `if ret is False and raise_exc` test as a fresh one) is the code the theorems are
+    about; `true` replays the code before 8b51f6e (a hit returns whatever is stored) -/
+def hitReturns : Bool := !Generated.c13MemoHitRaises
+
+/-- `get_handler` as the facts of this run describe it -/
+def getHandlerD (H : Hier) (r : Reg) (op : Op) (t : Ty) (re : Bool) : Reg × Answer :=
+  if hitReturns then
+    match odGet (t, op) r.cache with
+    | some h => (r, .ret h)
+    | none => getHandlerV storeMisses H r op t re
+  else getHandlerV storeMisses H r op t re
+
+/-- the iteration order of `known_types` in `register_op`: the registration order (the model's
+    `Reg.knownTypes`) when the source builds a list (fact `c13KnownTypesOrdered`), else — a set of
+    types — the order the harness observed -/
+def knownOrder (r : Option Reg) (observed : List Ty) : List Ty :=
+  if Generated.c13KnownTypesOrdered then (r.map Reg.knownTypes).getD [] else observed
+
 /-- the `get_handler` calls one real `glom` / `assign` / `delete` call performs (each with
     `raise_exc=True`), following `_t_eval` 'P', `_handle_list`, `_assign_op`, `Delete._del_one`
     and `_extend_children` (keys, then get; on UnregisteredTarget — also the one it raises itself
     for instances of list / tuple / set / frozenset that only have obj-style keys — iterate) -/
-def glomCalls (sm : Bool) (H : Hier) (r : Reg) (spec : String) (t : Ty) : Reg × List Call :=
+def glomCalls (H : Hier) (r : Reg) (spec : String) (t : Ty) : Reg × List Call :=
   let one (r : Reg) (op : Op) : Reg × Call :=
-    let (r', a) := getHandlerV sm H r op t true
+    let (r', a) := getHandlerD H r op t true
     (r', ⟨op, t, true, a⟩)
   if spec == "star" then
     let (r1, c1) := one r "keys"
@@ -161,10 +209,6 @@ def expectedRan (spec : String) (calls : List Call) : List String :=
     | [_, _, i] => tagOf i
     | _ => []
   else calls.flatMap tagOf
-
-/-- the memo policy of the code under test, as read from its source on this run: `false` (failed
-    lookups are not memoised) is the code the theorems are about -/
-def storeMisses : Bool := !Generated.c13MemoStoresOnlySuccess
 
 structure ImplObs where
   raised : Option String := none
@@ -251,10 +295,10 @@ def failingLookups (H : Hier) (S : Setup) (kinds : List RegKind) :
   | _, _, _, _, [] => []
   | n, w, d, a :: as, o :: os =>
     let here : List Json := match a, o with
-      | .lookup i op t _, some ans =>
+      | .lookup i op t re, some ans =>
         (match w[i]? with
          | some ρ =>
-           if answerOk (refAnswers H ρ op t) ans then [] else
+           if answerOk (refAnswers H ρ op t) re ans then [] else
            let moduleOnly := S.moduleOps.any (fun m => m.op == op) &&
              !(S.builtinOps.any (fun m => m.op == op))
            let stale := (d.memo.find? (fun m => m.1 == i)).map (fun m => m.2.2.contains (op, t))
@@ -264,7 +308,8 @@ def failingLookups (H : Hier) (S : Setup) (kinds : List RegKind) :
            let leaked := d.leak.any (fun l => l.1 == i && l.2.1 == op && l.2.2.1 == t &&
              ans == .ret l.2.2.2)
            let cls :=
-             if isGlommer && moduleOnly then "glommer-lacks-module-op"
+             if ans == .ret none && re then "returned-False-although-raise_exc"
+             else if isGlommer && moduleOnly then "glommer-lacks-module-op"
              else if leaked then "rejected-register-op-half-applied"
              else if d.rejReg.contains (i, t) then "rejected-register-half-applied"
              else if noHandler && d.failed.contains (i, op, t) then "failed-lookup-memoised"
@@ -326,19 +371,31 @@ def failingLookups (H : Hier) (S : Setup) (kinds : List RegKind) :
 def run (j : Json) : Except String Json := do
   let (tab, _uni) ← hierOfJson (← j.getObjVal? "hier")
   let H := tab.toHier
+  let tabRef ← refHierOfJson (← j.getObjVal? "hier") tab
+  let Href := tabRef.toHier
+  let duckDiffers := ((← j.getObjVal? "hier").getObjVal? "ref_inst" |>.toOption |>.isSome) ||
+    ((← j.getObjVal? "hier").getObjVal? "ref_auto" |>.toOption |>.isSome)
   let kinds ← (← listOfJson strOfJson (← j.getObjVal? "kinds")).mapM kindOfStr
-  let orders ← listOfJson (listOfJson strOfJson) (← j.getObjVal? "module_orders")
+  let ordersObs ← listOfJson (listOfJson strOfJson) (← j.getObjVal? "module_orders")
   let cacts ← listOfJson cactOfJson (← j.getObjVal? "actions")
   let impl ← j.getObjVal? "impl"
   if let .ok (.str why) := impl.getObjVal? "skip" then
     return Json.mkObj [("skip", true), ("why", why)]
+  if let .ok (.str why) := impl.getObjVal? "crash" then
+    -- glom cannot be imported / cannot build a registry: no lookup is answered at all
+    return Json.mkObj [("agree", false), ("holds", false), ("branch", "impl-crash"),
+      ("failing", Json.arr #[Json.mkObj [("class", "impl-crash")]]),
+      ("why", s!"the implementation could not be set up: {why}")]
   let obs ← listOfJson implObsOfJson (← impl.getObjVal? "obs")
   let implTrees ← treesOfJson (← impl.getObjVal? "trees")
   let implInit ← treesOfJson (← impl.getObjVal? "init_trees")
   if obs.length != cacts.length then throw "impl.obs does not align with actions"
-  if !(tableOK tab) then
-    return Json.mkObj [("skip", true), ("why", "isinstance/issubclass/__mro__ of this hierarchy are not coherent (outside the property's family)")]
+  if !(subOK tab) then
+    return Json.mkObj [("skip", true), ("why", "isinstance/issubclass of this hierarchy are not a transitive, antisymmetric relation with isinstance closed under it (outside the property's family)")]
   let S := genSetup
+  -- the known types at the module-level `register_op` calls: in registration order (fact), else observed
+  let orders := if Generated.c13KnownTypesOrdered
+    then S.moduleOps.map (fun _ => (freshReg H S true).knownTypes) else ordersObs
   let w0 := kinds.map (mkReg H S orders)
   let initAgree := (w0.zip implInit).all (fun p => sameTrees p.1.typeTree p.2)
   -- run the model over the case actions, expanding `glom` into its lookups
@@ -347,6 +404,9 @@ def run (j : Json) : Except String Json := do
   let mut modelAns : List (Option Answer) := []
   let mut implAns : List (Option Answer) := []
   let mut notes : List String := []
+  -- valid registrations the implementation refused: "a register() call takes effect for the very
+  -- next glom call" fails on them
+  let mut refused : List String := []
   let mut branches : List String := []
   let mut modelObs : List Json := []
   for (ca, ob) in cacts.zip obs do
@@ -357,11 +417,13 @@ def run (j : Json) : Except String Json := do
       if err.isSome then branches := branches ++ ["rejected-register"]
       if err.isSome != (ob.raised == some "TypeError") then
         notes := notes ++ [s!"register({t}): the model says {if err.isSome then "TypeError" else "accepted"}, the implementation {ob.raised.getD "accepted"}"]
+      if err.isNone && ob.raised.isSome then
+        refused := refused ++ [s!"register({t}) is valid but raised {ob.raised.getD ""}"]
       w := (step H w a).1; acts := acts ++ [a]
       modelAns := modelAns ++ [none]; implAns := implAns ++ [none]
       modelObs := modelObs ++ [if err.isSome then Json.mkObj [("raised", "TypeError")] else Json.null]
     | .registerOp i op f e =>
-      let order := ob.order.getD []
+      let order := knownOrder w[i]? (ob.order.getD [])
       let known := (w[i]?.map Reg.knownTypes).getD []
       if !(isPerm order known) then
         notes := notes ++ [s!"register_op order {order} is not a permutation of the model's known types {known}"]
@@ -370,6 +432,8 @@ def run (j : Json) : Except String Json := do
       if err.isSome then branches := branches ++ ["rejected-register-op"]
       if err.isSome != (ob.raised == some "TypeError") then
         notes := notes ++ [s!"register_op({op}): the model says {if err.isSome then "TypeError" else "accepted"}, the implementation {ob.raised.getD "accepted"}"]
+      if err.isNone && ob.raised.isSome then
+        refused := refused ++ [s!"register_op({op}) is valid but raised {ob.raised.getD ""}"]
       w := (step H w a).1; acts := acts ++ [a]
       modelAns := modelAns ++ [none]; implAns := implAns ++ [none]
       modelObs := modelObs ++ [if err.isSome then Json.mkObj [("raised", "TypeError")] else Json.null]
@@ -397,7 +461,7 @@ def run (j : Json) : Except String Json := do
           notes := notes ++ [s!"Glommer() copied ops {ob.created.map (·.1)}, the model expects {ops.map (·.1)}"]
         for (op, f) in ops do
           let known := (w[i]?.map Reg.knownTypes).getD []
-          let order := ((ob.created.find? (·.1 == op)).map (·.2)).getD known
+          let order := knownOrder w[i]? (((ob.created.find? (·.1 == op)).map (·.2)).getD known)
           if !(isPerm order known) then
             notes := notes ++ [s!"Glommer() op {op}: order {order} is not a permutation of the known types {known}"]
           let a := Action.registerOp i op f false order
@@ -413,7 +477,7 @@ def run (j : Json) : Except String Json := do
       | some r =>
         branches := branches ++ [lookupBranch H r op t]
         let a := Action.lookup i op t re
-        let (r', o1) := getHandlerV storeMisses H r op t re
+        let (r', o1) := getHandlerD H r op t re
         let o := some o1
         w := updateAt (fun _ => r') i w; acts := acts ++ [a]
         modelAns := modelAns ++ [o]
@@ -429,7 +493,7 @@ def run (j : Json) : Except String Json := do
       match w[i]? with
       | none => throw s!"no registry {i}"
       | some r =>
-        let (r', calls) := glomCalls storeMisses H r spec t
+        let (r', calls) := glomCalls H r spec t
         -- branch of the first call
         branches := branches ++ [s!"glom-{spec}"] ++ (calls.head?.map (fun c => [lookupBranch H r c.op t])).getD []
         w := updateAt (fun _ => r') i w
@@ -448,32 +512,55 @@ def run (j : Json) : Except String Json := do
         modelObs := modelObs ++ [Json.mkObj [("calls", Json.arr (calls.map callToJson).toArray),
           ("ran", toJson (expectedRan spec calls))]]
   let treesAgree := (w.zip implTrees).all (fun p => sameTrees p.1.typeTree p.2)
-  let agree := initAgree && treesAgree && notes.isEmpty && modelAns == implAns
-  let refW := kinds.map (refMk H S orders)
+  -- the outcome has to be a function of the history: the harness replays every case that runs
+  -- `register_op` with the case's classes at other memory addresses (`impl.layout` = the first
+  -- action answered differently)
+  let layoutDiff := (impl.getObjVal? "layout").toOption
+  let layoutTrees := (impl.getObjVal? "layout_trees").toOption.isSome
+  let agree := initAgree && treesAgree && notes.isEmpty && modelAns == implAns && !duckDiffers &&
+    !layoutTrees
+  -- the reference starts from the registration sequences the property takes as given
+  let refW := kinds.map (refMk Href pinnedSetup orders)
   -- `ran` consistency is part of what the property observes ("which registered handler runs")
   let ranOK := (cacts.zip obs).all (fun p => match p.1 with
     | .glom _ spec _ => expectedRan spec p.2.calls == p.2.ran
     | _ => true)
-  let holds := checkRun H refW acts implAns && ranOK
-  let modelHolds := checkRun H refW acts modelAns
+  -- a glom / assign / delete call that consulted no registry at all has no answer to check
+  let glomOK := (cacts.zip obs).all (fun p => match p.1 with
+    | .glom .. => !p.2.calls.isEmpty
+    | _ => true)
+  let holds := checkRun Href refW acts implAns && ranOK && refused.isEmpty && layoutDiff.isNone && glomOK
+  let modelHolds := checkRun H (kinds.map (refMk H S orders)) acts modelAns
   let why :=
     (if initAgree then [] else ["initial trees differ"]) ++
     (if treesAgree then [] else ["final trees differ"]) ++
-    (if modelAns == implAns then [] else ["answers differ"]) ++ notes
+    (if modelAns == implAns then [] else ["answers differ"]) ++ notes ++ refused ++
+    (match layoutDiff with
+     | some d => [s!"the answers depend on the memory addresses of the classes (replayed with the classes elsewhere in memory): {d.compress}"]
+     | none => []) ++
+    (if layoutTrees then ["the type trees depend on the memory addresses of the classes"] else []) ++
+    (if glomOK then [] else ["a glom call performed no get_handler call"]) ++
+    (if duckDiffers then ["isinstance/issubclass of glom's duck types (_AbstractIterable / _ObjStyleKeys) or the auto-discovery of the builtin ops (get / iterate) differ from their stated meaning"] else [])
   -- one representative branch per case: the rarest kind of lookup it contains
   let prio : List String := ["supers-dropped", "among-3", "among-2", "tree-virtual", "tree-base", "memo",
     "exact", "no-match", "no-types"]
   let rep := (prio.findSome? (fun p =>
     (branches.find? (fun b => (b.splitOn p).length > 1)))).getD "no-lookup"
   return Json.mkObj [("agree", agree), ("holds", holds), ("model_holds", modelHolds),
-    ("wf", tableOK tab),
+    ("wf", subOK tab), ("mro_ok", mroOK tab),
     ("shape_ok", shapeOK),
     ("memo_stores_misses", storeMisses),
     ("model", Json.mkObj [("obs", Json.arr modelObs.toArray),
-      ("trees", Json.arr (w.map (fun r => Json.arr (r.typeTree.map (fun p =>
-        Json.arr #[Json.str p.1, forestToJson p.2])).toArray)).toArray)]),
-    ("failing", Json.arr (failingLookups H S kinds 0 refW
-        { memo := (List.range kinds.length).map (fun i => (i, [], [])) } acts implAns).toArray),
+      -- (trees nested deeper than a few hundred levels are not printed: JSON readers recurse)
+      ("trees", Json.arr (w.map (fun r =>
+        if r.typeTree.any (fun p => fdepth p.2 > 300) then Json.null else
+        Json.arr (r.typeTree.map (fun p =>
+          Json.arr #[Json.str p.1, forestToJson p.2])).toArray)).toArray)]),
+    ("failing", Json.arr ((failingLookups Href pinnedSetup kinds 0 refW
+        { memo := (List.range kinds.length).map (fun i => (i, [], [])) } acts implAns) ++
+      (match layoutDiff with
+       | some d => [Json.mkObj [("class", "memory-layout-dependent"), ("detail", d)]]
+       | none => [])).toArray),
     ("rejected", (branches.filter (fun b => b.startsWith "rejected")).length),
     ("branch", rep),
     ("why", "; ".intercalate why)]
